@@ -94,6 +94,17 @@ def scenarios() -> Dict[str, Tuple[Scenario, Dict[Any, Any]]]:
         ("r", "call_function", ADD, ("%x", "%o"), {}),
         ("output", "output", "output", (("%r",),), {}),
     ], {})
+    S["in-place tensor methods used as statements inside a residual branch"] = ([
+        ("x", "placeholder", "x", (), {}),
+        ("w1", "get_attr", "w1", (), {}), ("w2", "get_attr", "w2", (), {}),
+        ("h", "call_function", E(F + "linear"), ("%x", "%w1"), {}),
+        ("stmt_scale", "call_method", "mul_", ("%h", 0.25), {}),  # h.mul_(0.25): result unused, later readers point at h
+        ("stmt_clamp", "call_method", "clamp_", ("%h",), {"max": 6.0}),
+        ("a", "call_function", E(F + "gelu"), ("%h",), {}),
+        ("o", "call_function", E(F + "linear"), ("%a", "%w2"), {}),
+        ("r", "call_function", ADD, ("%x", "%o"), {}),
+        ("output", "output", "output", (("%r",),), {}),
+    ], {})
     # the operator spelling of a mapped op: `h @ w` is traced as the builtin operator.matmul (as `a + b` is operator.add)
     S["matmul written with the @ operator inside a residual branch"] = ([
         ("x", "placeholder", "x", (), {}),
@@ -486,6 +497,12 @@ def check(report: Report, repo: Repo) -> None:
         d = first_diff(got, exp) if got is not None else "no output"
         report.add("R1-rewrite", cons, got == exp, f"[{sname}] rewritten graph must equal the recipe; first difference: {d}", str(got)[:500], str(exp)[:500])
         report.add("R1-lint", cons, g.linted >= 1, f"[{sname}] graph.lint() runs on the result", g.linted, ">=1", nontrivial=False)
+        # statement nodes (an in-place method whose result nobody reads) are operations too: "all other operations untouched"
+        stmts = [nm for nm, op_, _t, _a, _k in sc if nm.startswith("stmt_")]
+        if stmts:
+            left = [n_.attrs["name"] for n_ in g.nodes]
+            gone = [nm for nm in stmts if nm not in left]
+            report.add("R1-rewrite", f"{cons}::statements", not gone, f"[{sname}] in-place method calls used as statements survive the rewrite (torch.fx regards every call_method node as pure, so a dead-code sweep would delete them)", gone, [])
     from .c17 import check_root_entry
 
     check_root_entry(report, repo, "R3-unit_scale")  # the transform is only applied at all if TorchDynamo traces the root
